@@ -52,6 +52,22 @@ Inductive wf_node : ynode -> Prop :=
 | wf_mapping kvs : Forall (fun kv => wf_node (fst kv) /\ wf_node (snd kv)) kvs -> wf_node (YMapping kvs)
 | wf_sequence xs : Forall wf_node xs -> wf_node (YSequence xs).
 
+(* node->getType() can be called *)
+Definition present (n : ynode) : Prop := ntype n <> None.
+
+(* What the YAML parser can deliver.  With [absent_ok = true] keys, values and document roots may be null (a failed
+   scanner); with [absent_ok = false] they may not.  The elements of a sequence are never null in either case: the
+   sequence iterator ends the iteration instead (SequenceNode::increment: `if (!CurrentEntry) IsAtEnd = true`), and
+   BuildFile.cpp takes them by reference (`for (auto& node: *sequence)`). *)
+Inductive tree_ok (absent_ok : bool) : ynode -> Prop :=
+| to_scalar v : tree_ok absent_ok (YScalar v)
+| to_block v : tree_ok absent_ok (YBlockScalar v)
+| to_alias a : tree_ok absent_ok (YAlias a)
+| to_null : tree_ok absent_ok YNull
+| to_absent : absent_ok = true -> tree_ok absent_ok YAbsent
+| to_mapping kvs : Forall (fun kv => tree_ok absent_ok (fst kv) /\ tree_ok absent_ok (snd kv)) kvs -> tree_ok absent_ok (YMapping kvs)
+| to_sequence xs : Forall (fun x => present x /\ tree_ok absent_ok x) xs -> tree_ok absent_ok (YSequence xs).
+
 (* ---- string constants ---- *)
 Definition s_client : bytes := [99; 108; 105; 101; 110; 116].
 Definition s_tools : bytes := [116; 111; 111; 108; 115].
